@@ -1,5 +1,6 @@
 """C04 — the assembler accepts exactly the programs whose operands fit."""
 import json
+import re
 import os
 from ..facts import callee_of, short, sp_file_line, expr_str, expr_walk, op_local, place_is_local, const_int
 from .. import kit, formula, tables
@@ -270,18 +271,85 @@ def run(ctx):
     ctx.oblig(ok, {"set_orig": labs}, "origin already set -> Err")
     if not ok:
         ctx.violation("double-orig", so.file_line(), "Air::set_orig: origin already set -> %s, not set -> %s (expected Err / Ok)" % (labs.get("Some"), labs.get("None")))
-    fl = [n for n in prog.fns if n.startswith("lace::symbol::Label::filled::{closure")]
-    ctx.need(fl, "closure of Label::filled")
-    ff = prog.fns[fl[0]]
-    gets = [b for b, t, c in ff.calls() if c and c.endswith("HashMap::<K, V, S, A>::get")]
-    ok = len(gets) == 1
-    if ok:
-        nb = ff.term(gets[0])["t"]
-        tt = ff.term(nb)
-        tg = {v: x for v, x in tt["targets"]} if tt["k"] == "switch" else {}
-        none_t = tg.get(0, tt.get("otherwise"))
-        ok = none_t is not None and any(s["k"] == "assign" and s["p"]["l"] == 0 and s["r"]["k"] == "agg" and s["r"].get("variant") == "Err"
-                                        for bb in ff.reachable(none_t, avoid={tg.get(1)}) for s in ff.stmts(bb))
+    # Label::filled: a lookup that misses ends in Err. The Option that HashMap::get hands back is followed through copies, Option::map & co.,
+    # helper functions and the table accessor's closure until it is either matched (None edge -> Err stored in the return place) or turned
+    # into a Result by ok_or / ok_or_else
+    FILLED = "lace::symbol::Label::filled"
+    ctx.fn(FILLED)
+    family = sorted(n for n in (ctx.cg.reachable([FILLED]) | {FILLED}) if n in prog.fns and n.startswith("lace::symbol::"))
+    KEEP = re.compile(r"Option::<T>::(map|copied|cloned|as_ref|as_deref|inspect|filter)$|Option::<&T>::(copied|cloned)$")
+    TO_RES = re.compile(r"Option::<T>::(ok_or|ok_or_else)$")
+    work = []
+    for n in family:
+        g = prog.fns[n]
+        for b_, t_, c_ in g.calls():
+            if c_ and c_.endswith("HashMap::<K, V, S, A>::get") and not t_["dest"].get("pr"):
+                work.append((n, t_["dest"]["l"]))
+    ctx.need(work, "symbol-table lookup (HashMap::get) below Label::filled")
+    ok, seen_tr, steps = False, set(), 0
+    while work and not ok and steps < 200:
+        steps += 1
+        n, l0 = work.pop()
+        if (n, l0) in seen_tr:
+            continue
+        seen_tr.add((n, l0))
+        g = prog.fns[n]
+        al = {l0}
+        changed = True
+        while changed:
+            changed = False
+            for bb_, i_, s_ in g.assigns():
+                r_ = s_["r"]
+                if r_["k"] == "use" and r_["a"].get("p") and r_["a"]["p"]["l"] in al and not r_["a"]["p"].get("pr") and not s_["p"].get("pr") and s_["p"]["l"] not in al:
+                    al.add(s_["p"]["l"]); changed = True
+            for bb_, t_, c_ in g.calls():
+                if c_ and KEEP.search(c_) and t_["args"] and op_local(t_["args"][0]) in al and not t_["dest"].get("pr") and t_["dest"]["l"] not in al:
+                    al.add(t_["dest"]["l"]); changed = True
+            # a written-out (or lowered) `map`: the None edge of a match on the tracked value stores None in another local
+            for bb_ in sorted(g.live_blocks()):
+                tt = g.term(bb_)
+                if tt["k"] != "switch":
+                    continue
+                sd_ = kit.switch_on_discr_of_local(g, bb_)
+                if not sd_ or sd_[0].get("l") not in al or sd_[0].get("pr"):
+                    continue
+                tg = {v: x for v, x in tt["targets"]}
+                none_t = tg.get(0, tt.get("otherwise"))
+                if none_t is None:
+                    continue
+                for s_ in g.stmts(none_t):
+                    if s_["k"] == "assign" and not s_["p"].get("pr") and s_["r"]["k"] == "agg" and s_["r"].get("variant") == "None" and s_["p"]["l"] not in al:
+                        al.add(s_["p"]["l"]); changed = True
+        # (b) turned into a Result whose Err stands for the miss
+        if any(c_ and TO_RES.search(c_) and t_["args"] and op_local(t_["args"][0]) in al for bb_, t_, c_ in g.calls()):
+            ok = True
+            break
+        # (a) matched: the None edge stores Err in the return place
+        for bb_ in sorted(g.live_blocks()):
+            tt = g.term(bb_)
+            if tt["k"] != "switch":
+                continue
+            sd_ = kit.switch_on_discr_of_local(g, bb_)
+            if not sd_ or sd_[0].get("l") not in al or sd_[0].get("pr"):
+                continue
+            tg = {v: x for v, x in tt["targets"]}
+            none_t = tg.get(0, tt.get("otherwise"))
+            if none_t is not None and any(s_["k"] == "assign" and s_["p"]["l"] == 0 and s_["r"]["k"] == "agg" and s_["r"].get("variant") == "Err"
+                                          for b2 in g.reachable(none_t, avoid={tg.get(1)} if tg.get(1) is not None else set()) for s_ in g.stmts(b2)):
+                ok = True
+        if ok:
+            break
+        # handed back to the caller: follow it there
+        if 0 in al:
+            for m in family:
+                h = prog.fns[m]
+                for bb_, t_, c_ in h.calls():
+                    if t_["dest"].get("pr"):
+                        continue
+                    cls_ = [x_[3:] if x_.startswith("fn:") else x_ for x_ in t_["f"].get("closures", [])]
+                    if c_ == n or (n in cls_ and c_ and (c_.startswith("lace::symbol::") or "LocalKey" in c_)):
+                        work.append((m, t_["dest"]["l"]))
+    ff = prog.fns[FILLED]
     ctx.instance(1)
     ctx.oblig(ok, {"Label::filled": "unknown label -> Err"}, "decision on HashMap::get's result")
     if not ok:
@@ -293,9 +361,23 @@ def run(ctx):
     LX = "lace::lexer::<impl lexer::cursor::Cursor<'_>>::"
     for nm, radix in (("hex", 16), ("dec", 10)):
         f = ctx.fn(LX + nm)
-        calls = [(b, t, c) for b, t, c in f.calls() if c and c.endswith("from_str_radix")]
-        tys = [c.split("<impl ")[1].split(">")[0] for b, t, c in calls]
-        rad = [const_int(t["args"][1]) for b, t, c in calls]
+        def parse_calls(g):
+            """(block, terminator, integer type, radix) of every integer parse: T::from_str_radix(s, r), and s.parse::<T>() / T::from_str(s), which are radix 10"""
+            out = []
+            for b_, t_, c_ in g.calls():
+                if not c_:
+                    continue
+                if c_.endswith("from_str_radix") and "<impl " in c_:
+                    out.append((b_, t_, c_.split("<impl ")[1].split(">")[0], const_int(t_["args"][1])))
+                elif c_.endswith("core::str::<impl str>::parse") or re.search(r"str::traits::FromStr>::from_str$", c_):
+                    targs = t_["f"].get("targs") or []
+                    ty_ = targs[-1] if targs else (re.search(r"<(\w+) as core::str::traits::FromStr>", c_) or [None, "?"])[1]
+                    if re.fullmatch(r"[iu](8|16|32|64|128|size)", str(ty_)):
+                        out.append((b_, t_, ty_, 10))
+            return out
+        calls = parse_calls(f)
+        tys = [x[2] for x in calls]
+        rad = [x[3] for x in calls]
         ctx.instance(1)
         ok = tys == ["i16", "u16"] and rad == [radix, radix]
         if ok:
@@ -309,13 +391,13 @@ def run(ctx):
                 if not (c2 and c2.endswith("Result::<T, E>::or_else")):
                     continue
                 recv = f.expr(t2["args"][0], 10)
-                first_in_recv = any(x[0] == "call" and str(x[1]).endswith("<impl i16>::from_str_radix") for x in expr_walk(recv))
+                first_in_recv = any(x[0] == "call" and (str(x[1]).endswith("<impl i16>::from_str_radix") or str(x[1]).endswith("core::str::<impl str>::parse")) for x in expr_walk(recv))
                 for cl in t2["f"].get("closures", []):
                     g = prog.fns.get(cl[3:] if cl.startswith("fn:") else cl)
                     if g is None:
                         continue
-                    inner = [(tt, cc) for bb, tt, cc in g.calls() if cc and cc.endswith("from_str_radix")]
-                    if first_in_recv and len(inner) == 1 and inner[0][1].endswith("<impl u16>::from_str_radix") and const_int(inner[0][0]["args"][1]) == radix:
+                    inner = parse_calls(g)
+                    if first_in_recv and len(inner) == 1 and inner[0][2] == "u16" and inner[0][3] == radix:
                         ok = True
                         tys, rad = ["i16", "u16 (or_else)"], [radix, radix]
         ctx.oblig(ok, {nm: list(zip(tys, rad))}, "i16 then (on failure) u16, same radix")
